@@ -24,6 +24,23 @@ def work(job):
     except Exception as ex:
         return {'err': '%s: %s' % (type(ex).__name__, ex)}
 
+def judge_case(d, edits, r, c):
+    """-> (failure text or None, known finding (id, what) or None) for one previewed + committed batch"""
+    if r['err']: return J.classify(c, 'preview/commit raised ' + r['err'], block_region=True)
+    fail = None
+    marked = sorted(int(x) for x in re.findall(r'\[Edit:(\d+)\]', r['preview']))
+    applied_n = r['r']['ap']
+    # the commit does not say which edits it applied: compare counts and, edit by edit, the effect on the accepted text
+    if len(marked) != applied_n: fail = 'the preview marks %d edits %s, the commit applied %d (skipped %d)' % (len(marked), marked, applied_n, r['r']['sk'])
+    else:
+        acc_prev, _, wf = C14.read_view(r['preview'], 'accept')
+        if strip_markers(acc_prev) != strip_markers(r['final']):
+            fail = 'preview read with all suggestions accepted differs from the accepted view of the committed document: ' + json.dumps(docrun.first_diff(strip_markers(r['final']), strip_markers(acc_prev)))
+    f, kn = J.classify(c, fail, meta_region=True, block_region=True)
+    if f and not kn and J.bold_led_para(d) and J.unhead(strip_markers(C14.read_view(r['preview'], 'accept')[0])) == J.unhead(strip_markers(r['final'])):
+        kn = ('D42', 'the heuristic heading prefix of an all-caps bold paragraph changes with its text')
+    return f, kn
+
 def run(tier, seed):
     ck = core.Check('C15', tier, seed)
     ck.proof_gate(['Props/C15.v'], extra_trusted=[
@@ -38,6 +55,8 @@ def run(tier, seed):
         raw, clean = docrun.extract(b, False), docrun.extract(b, True)
         edits = E.gen_batch(rng, din, raw, clean, 'exact')
         edits = [e for e in edits if '\n' not in e[1] and not e[1].startswith('#')]
+        for q in ('"term"', '\u201cterm\u201d', "Buyer's", 'Buyer\u2019s'):      # the same term in both quote spellings: each is an exact, unique target
+            if clean.count(q) == 1 and raw.count(q) == 1 and rng.random() < .7: edits.append((q, 'defined ' + q[1:-1], None, None))
         if not edits: continue
         c = {'din': din, 'edits': edits}
         if E.exact_unique(c, raw, clean) is None: continue
@@ -47,7 +66,11 @@ def run(tier, seed):
     corpus = []
     for fid, case in core.finding_cases('C15'):       # recorded inputs (known findings and repaired defects) run first
         if case and 'doc' in case and 'edits' in case:
-            d = dict(case['doc']); d.setdefault('features', []); corpus.append((d, A.build(d), [tuple(e) for e in case['edits']]))
+            d = dict(case['doc']); d.setdefault('features', []); b = A.build(d); edits = [tuple(e) for e in case['edits']]
+            raw, clean = docrun.extract(b, False), docrun.extract(b, True)
+            # the property speaks about exact, unique, non-overlapping targets: recorded inputs outside that domain are not C15 inputs
+            if E.exact_unique({'din': A.read(b, table=list(d['rpr_table'])), 'edits': edits}, raw, clean) is None and not any(J.block_text(e[1]) for e in edits): continue
+            corpus.append((d, b, edits))
     cases = corpus + cases
     with Pool(core.NPROC, initializer=docrun.impl_init) as pool:
         res = pool.map(work, [(b, e) for d, b, e in cases], chunksize=8)
@@ -57,20 +80,7 @@ def run(tier, seed):
         ck.count()
         st = E.correspondence(ck, c); inside += st == 'inside'
         case = E.case_of(c)
-        if r['err']: f, kn = J.classify(c, 'preview/commit raised ' + r['err'])
-        else:
-            fail = None
-            marked = sorted(int(x) for x in re.findall(r'\[Edit:(\d+)\]', r['preview']))
-            applied_n = r['r']['ap']
-            # the commit does not say which edits it applied: compare counts and, edit by edit, the effect on the accepted text
-            noop = [i for i, e in enumerate(edits) if e[0] == e[1]]
-            if len(marked) != applied_n: fail = 'the preview marks %d edits %s, the commit applied %d (skipped %d)' % (len(marked), marked, applied_n, r['r']['sk'])
-            else:
-                acc_prev, _, wf = C14.read_view(r['preview'], 'accept')
-                if strip_markers(acc_prev) != strip_markers(r['final']):
-                    fail = 'preview read with all suggestions accepted differs from the accepted view of the committed document: ' + json.dumps(docrun.first_diff(strip_markers(r['final']), strip_markers(acc_prev)))
-            f, kn = J.classify(c, fail, meta_region=True)
-            if f and not kn and J.bold_led_para(d) and re.sub(r'(?m)^#+ ', '', strip_markers(C14.read_view(r['preview'], 'accept')[0])) == re.sub(r'(?m)^#+ ', '', strip_markers(r['final'])): kn = ('D42', 'the heuristic heading prefix of an all-caps bold paragraph changes with its text')
+        f, kn = judge_case(d, edits, r, c)
         if f and kn: ck.known(kn[0], kn[1], case)
         elif f: ck.violation('oracle', dict(case, preview=r.get('preview'), committed=r.get('final')), f)
         if not r['err'] and r['r']['ap']: distinct.add(json.dumps(case, sort_keys=True)[:2000])
@@ -81,11 +91,13 @@ def run(tier, seed):
                           'non-trivial = the commit applied at least one edit; distinct by (document, batch)', distinct=len(distinct))
 
 def replay(path):
-    r = json.load(open(path)); c0 = r['case']; d = c0['doc']; d.setdefault('features', [])
-    docrun.impl_init(); b = A.build(d); res = work((b, [tuple(e) for e in c0['edits']]))
+    r0 = json.load(open(path)); c0 = r0['case']; d = c0['doc']; d.setdefault('features', [])
+    docrun.impl_init(); b = A.build(d); edits = [tuple(e) for e in c0['edits']]
+    res = work((b, edits)); (c,) = E.run_cases([(d, edits)])
+    class _CK: corr_broken = []
+    E.correspondence(_CK, c)
     print(res.get('preview')); print(res.get('final'))
-    if res['err']: print('VIOLATION property=C15 replay=%s' % path); return 1
-    acc_prev, _, _ = C14.read_view(res['preview'], 'accept')
-    marked = re.findall(r'\[Edit:(\d+)\]', res['preview'])
-    if len(marked) != res['r']['ap'] or strip_markers(acc_prev) != strip_markers(res['final']): print('VIOLATION property=C15 replay=%s' % path); return 1
-    print('property holds on this input'); return 0
+    f, kn = judge_case(d, edits, res, c)
+    if f and kn: print('KNOWN %s: %s' % (kn[0], f[:300]))
+    elif f: print('FAIL: ' + f[:400]); print('VIOLATION property=C15 replay=%s' % path); return 1
+    print('property holds on this input' if not f else 'recorded finding'); return 0
